@@ -18,7 +18,8 @@ TRUSTED = ["the simulator's rules stand for Thespian (incl. ChildActorExited on 
            "sender adjacency of the actors (who can send to whom) in the relay table is written by hand; forwarding targets, no_retry guards and PoisonMessage handlers are extracted from the AST"]
 ASSUMPTIONS = ["a single fault per race", "race() looks at the first reply only (actor_system.ask)"]
 
-KINDS = ["request-abort", "request-connection", "runner-raises", "params-raise", "driver-store", "rc-store", "prep-task", "kill-worker", "cancel", "none", "outage"]
+KINDS = ["request-abort", "request-connection", "runner-raises", "params-raise", "driver-store", "rc-store", "prep-task", "kill-worker", "cancel", "none", "outage",
+         "request-unsuccessful"]
 
 
 def gen(ctx):
@@ -39,6 +40,9 @@ def gen(ctx):
         if kind == "request-abort":
             sc["on_error"] = "abort"
             faults[("request", t["name"], cidx(), ridx())] = "api-error"
+        elif kind == "request-unsuccessful":
+            sc["on_error"] = "abort"
+            faults[("request", t["name"], cidx(), ridx())] = "unsuccessful-result"
         elif kind == "request-connection":
             faults[("request", t["name"], cidx(), ridx())] = "connection-error"
         elif kind == "runner-raises":
@@ -64,6 +68,7 @@ def gen(ctx):
 
         sc["fault_exc"] = rng.choice(_sr.FAULT_CLASSES) if rng.random() < 0.6 else "RuntimeError"
         # configuration that changes what the actors do on start-up and shut-down
+        sc["profiling"] = rng.random() < 0.08  # --enable-driver-profiling wraps every executor
         sc["api_keys"] = rng.random() < 0.4
         sc["faults"] = {repr(k): v for k, v in faults.items()}
         sc["timed"] = timed
